@@ -1,12 +1,17 @@
 import Wayfind.Proofs.Reachable
 import Wayfind.Proofs.Corollaries
+import Wayfind.Proofs.SameLive
 
 /-! # C05 — routing depends only on the set of live templates
 Search half: two routers reachable through the API whose trees hold the same routes (up to how literal text is split
 across nodes) answer every search identically, for every constraint environment — whatever order, flags, dirty marks
 or radix splits their histories left.
-Status: **partial** — the printing half (`Display` equal) needs uniqueness of the canonical tree; "same live templates
-⇒ same routes" is the registry invariant. Both are tied by the FUN oracle of the check. -/
+Status: the search half is proved on live templates (`C05_same_live_set_same_results`: same set of (template, data)
+pairs ⇒ identical results for every path and every constraint environment), for histories whose inserted templates
+have pairwise different expansions, and on stored routes for all histories. **Partial**: the printing half
+(`Display` equal) needs uniqueness of the canonical tree; it is tied by the FUN oracle (every drawing must be a
+function of the live set) over rebuilds in sorted order, all insertion orders of small subsets with detours, and
+repeated observations. -/
 
 theorem C05_search_history_independent (env : Env) (r1 r2 : Router) (h1 : Reachable r1) (h2 : Reachable r2)
     (hsame : ∀ P i, Mem (Node.routes r1.root) P i ↔ Mem (Node.routes r2.root) P i) (path : Bytes) :
@@ -18,3 +23,11 @@ theorem C05_search_history_independent_api (env : Env) (r1 r2 : Router) (h1 : Re
     r1.search env path = r2.search env path := by
   unfold Router.search
   rw [C05_search_history_independent env r1 r2 h1 h2 hsame path]
+
+/-- **On live templates.** Two routers holding the same set of (template, data) pairs — whatever the order of the
+insertions and whatever was inserted and deleted along the way — return identical results for every path. -/
+theorem C05_same_live_set_same_results (env : Env) (r1 r2 : Router) (L1 L2 : List LiveT) (h1 : Live r1 L1) (h2 : Live r2 L2)
+    (h12 : ∀ lt ∈ L1, ∃ lt' ∈ L2, lt'.template = lt.template ∧ lt'.data = lt.data)
+    (h21 : ∀ lt ∈ L2, ∃ lt' ∈ L1, lt'.template = lt.template ∧ lt'.data = lt.data) (path : Bytes) :
+    r1.search env path = r2.search env path :=
+  same_live_same_search env h1 h2 h12 h21 path
